@@ -5,7 +5,7 @@ from props import wire, shuf
 TRUSTED = BASE_TRUSTED + ["ristretto wire format (32/30 fixed bytes) is exercised on the implementation only; dalek's compress/decompress are not modelled"]
 RULE = ("every wire type (element, exponent, plaintext, Ciphertext, PublicKey, PrivateKey, Schnorr, ChaumPedersen, ShuffleProof, the "
         "five StrandVector wrappers) x both multiplicative backends x parameter sets 23, 16-bit, 62-bit, 2048-bit x boundary values "
-        "(identity, generator, exponent 0 / q-1, plaintext 0 / 255 / 256 / 65535 / 65536, empty vectors, vectors of length 1..3) and "
+        "(identity, generator, exponent 0 / q-1, plaintext 0 / 255 / 256 / 65535 / 65536, empty vectors, vectors of length 1..3 and 65 / 129 / 300) and "
         "random values: bytes produced by the implementation == bytes produced by the Gallina writers; decode(encode v) == v; "
         "encodings with one byte appended, one byte removed, and sampled single-bit flips decode to what the model says (value or "
         "error); distinct values give distinct encodings")
@@ -30,7 +30,10 @@ def values(ctx, r, quick):
     for _ in range(n):
         out.append(("schnorr", [s(r.choice(E)), s(r.choice(X)), s(r.choice(X))]))
         out.append(("cp", [s(r.choice(E)), s(r.choice(E)), s(r.choice(X)), s(r.choice(X))]))
-    for L in (0, 1, 2, 3):
+    # long vectors once per context class (lengths that cross 64 / 256 / 1024 and a non-multiple of everything): the
+    # model evaluates them too (writers/readers are linear)
+    longs = () if ctx.endswith("2048") else ((65, 300) if ctx.endswith(":23") else (129,))
+    for L in (0, 1, 2, 3) + longs:
         out.append(("vec_e", [s(r.choice(E)) for _ in range(L)]))
         out.append(("vec_x", [s(r.choice(X)) for _ in range(L)]))
         out.append(("vec_p", [s(r.choice(Pl)) for _ in range(L)]))
